@@ -187,6 +187,9 @@ func (p *Parser) Error(msg string, token *Token) *Error {
 			// Set to last token
 			if len(p.tokens) > 0 {
 				token = p.tokens[len(p.tokens)-1]
+			} else {
+				// no tokens at all (a tag without arguments): the token the parser was created after
+				token = p.lastToken
 			}
 		}
 	}
